@@ -556,6 +556,32 @@ def w6(F, rep):
 
 
 
+def w7(F, rep):
+    """The codes a block's tokens are written with are the codes of that block's own header, computed the way the parser
+    computes them: (a) encode_block hands encode_block_with_decoder a HuffmanWriter built *in this call* from
+    block.huffman_encoding (or the fixed one) — nothing kept from an earlier block; (b) the writer and the parser both expand
+    the run-length header through the one shared routine get_literal_distance_lengths, .0 for literals and .1 for distances."""
+    b = F.body(P + "deflate_writer::DeflateWriter::encode_block")
+    where = "%s:%s" % (b.file, b.line)
+    DYN = re.compile(r"^branch\((preflate_rs::)?huffman_encoding::HuffmanWriter::start_dynamic_huffman_table\(arg<&mut preflate_rs::deflate_writer::DeflateWriter>\.bitwriter, arg<&preflate_rs::preflate_token::PreflateTokenBlock>\.huffman_encoding, .*\)\) as Continue\.0$")
+    FIX = re.compile(r"^(preflate_rs::)?huffman_encoding::HuffmanWriter::start_fixed_huffman_table\(\)$")
+    calls = [(bb, t) for bb, t in b.calls() if strip_generics(callee_def(t)).endswith("::encode_block_with_decoder")]
+    rep.floor("W7", "token-encoding-calls", len(calls), 2)
+    for i, (bb, t) in enumerate(calls):
+        d = flow.describe(b, t["args"][2])
+        rep.add("W7", "codes-from-this-blocks-header#%d" % i, bool(DYN.match(d) or FIX.match(d)), b.where(bb), "encode_block_with_decoder(.., %s)" % d[:200])
+    a = F.adts.get(P + "deflate_writer::DeflateWriter")
+    held = [f["name"] for f in a["variants"][0]["fields"] if "Huffman" in f["ty"]] if a else ["?"]
+    rep.add("W7", "writer-keeps-no-code-tables", not held, where, "DeflateWriter fields holding Huffman state across blocks: %s" % held)
+    SH = r"(deref\()?(preflate_rs::)?huffman_encoding::HuffmanOriginalEncoding::get_literal_distance_lengths\(arg<&preflate_rs::huffman_encoding::HuffmanOriginalEncoding>\)\.%d\)?"
+    for fn, callee in ((P + "huffman_encoding::HuffmanWriter::start_dynamic_huffman_table", "calc_huffman_codes"),
+                       (P + "huffman_encoding::HuffmanReader::create_from_original_encoding", "calculate_huffman_code_tree")):
+        fb = F.body(fn)
+        ds = [flow.describe(fb, t["args"][0]) for bb, t in fb.calls() if strip_generics(callee_def(t)).endswith("::" + callee)]
+        ok = len(ds) == 2 and re.match("^" + SH % 0 + "$", ds[0]) is not None and re.match("^" + SH % 1 + "$", ds[1]) is not None
+        rep.add("W7", "shared-header-expansion:%s" % fn.split("::")[-1], ok, "%s:%s" % (fb.file, fb.line), "%s(%s)" % (callee, [d[:140] for d in ds]))
+
+
 def run(ctx, rep):
     F = ctx.lib
     rep.explanation = ("The serialiser is checked against the parser and the RFC without going through the predictor: exact piecewise summaries of the "
@@ -571,3 +597,4 @@ def run(ctx, rep):
     w4(F, rep)
     w5(F, rep)
     w6(F, rep)
+    w7(F, rep)
